@@ -250,6 +250,9 @@ PROPS["C07"]["level_text"] += (
     "; the writer of constants is tied to the source by proof (C07_constant_writer_is_the_source: the constant branches of value_to_json, "
     "re-translated in Gen/SrcToJson.v, are the model's iconst_to_json for all constants)")
 PROPS["C11"]["level_text"] += "; to_flags_data / from_flags_data themselves are tied the same way (C11_flag_conversions_are_the_source, Gen/SrcFlags.v)"
+PROPS["C03"]["level_text"] += (
+    "; and the final loop's body - the line entries of an instruction and of its EXTENDED_ARG prefixes, the code units written - is the step of "
+    "the model's assemble (C03_assembly_step_is_the_source)")
 
 NOT_CLAIMED = {
 }
